@@ -174,4 +174,13 @@ def main(argv=None):
 
 
 if __name__ == '__main__':
-    sys.exit(main())
+    try:
+        code = main()
+    except SystemExit:
+        raise
+    except BaseException as e:      # a crash of the checker is never a verdict about /repo (exit 1 is reserved for violations)
+        import traceback
+        traceback.print_exc()
+        print(f'CHECKER-ERROR {type(e).__name__}: {e}')
+        code = 3
+    sys.exit(code)
